@@ -132,6 +132,39 @@ def run(ctx):
                         ctx.corr_break("CORR-SPLICE", {"source": src, "file": c, "model": mo, "implementation_hex": sp.hex()})
                 if byfile.get(f):
                     nt.add((src, mode, c))
+    # several commands in one program: in mode OVERWRITE every command works on the file as the previous one left it - the program's effect is the effect of
+    # its commands run one after the other (each single-command run is judged against the splice above)
+    seqs = [(["replace all 'a' with 'bb'", "replace all 'b' with 'c'"], "xaxa-tail"), (["replace all 'a' with ''", "replace all 'x' with 'yy'", "find all 'y'"], "xaxa-tail"),
+            (["find all 'a'", "replace all 'ab' with 'b'", "replace all 'b' with 'ab'"], "abab ab\nb"), (["replace all digit with '<' value '>'", "replace all '<' with '['"], "a1b22"),
+            (["replace all 'needle' with 'N'", "replace all 'N' with 'needle needle'"], bigs[1])]
+    first = []
+    for cmds, content in seqs:
+        for mode in ("OVERWRITE", "NEW"):
+            first.append({"op": "files", "src_hex": vh.hexs(" ".join(cmds)), "files": [["f.txt", vh.hexs(content)]], "search": ["f.txt"], "mode": mode})
+    fr = vh.run_cases(first, shards=1)
+    k = 0
+    for cmds, content in seqs:
+        for mode in ("OVERWRITE", "NEW"):
+            whole = fr[k]; k += 1
+            if "snapshot" not in whole:
+                ctx.violation("RunFiles of a program with several commands fails", {"source": " ".join(cmds), "mode": mode, "outcome": str({a: b for a, b in whole.items() if a in ("panic", "hang", "err")})[:300]})
+                continue
+            cur = {"f.txt": content.encode("latin-1")}
+            okseq = True
+            for c1 in cmds:
+                step = vh.run_cases([{"op": "files", "src_hex": vh.hexs(c1), "files": [[n, vh.hexs(v.decode("latin-1"))] for n, v in sorted(cur.items())], "search": ["f.txt"], "mode": mode}])[0]
+                if "snapshot" not in step:
+                    okseq = False
+                    break
+                cur = {n: bytes.fromhex(v) for n, v in step["snapshot"].items()}
+            ev += 1
+            got = {n: bytes.fromhex(v) for n, v in whole["snapshot"].items()}
+            if okseq and got != cur:
+                ctx.violation("a program of several commands leaves other files than its commands run one after the other (mode %s)" % mode,
+                              {"source": " ".join(cmds), "mode": mode, "file": content[:200], "program": {n: v.decode("latin-1")[:120] for n, v in got.items()},
+                               "one_after_the_other": {n: v.decode("latin-1")[:120] for n, v in cur.items()}})
+            elif okseq:
+                nt.add((" ".join(cmds), mode, content[:50]))
     ctx.coverage["evaluations"] = ev
     ctx.coverage["distinct_nontrivial"] = len(nt)
     ctx.coverage["rule"] = ("find/replace commands x file sets (1..3 files; empty, short, long contents) x {NOTHING, NEW, OVERWRITE} x stale .vored present or not, on real "
